@@ -1,6 +1,7 @@
 (* C09 property theorems *)
 From Coq Require Import ZArith List Bool Lia ZifyBool.
 From EP Require Import C06.Model C09.Model C09.Proofs Gen.C09Helpers.
+From EP Require Gen.C09Shape.
 Import ListNotations.
 Open Scope Z_scope.
 
@@ -47,12 +48,19 @@ Proof.
   - exact (normalize_space_idem ws W s).
 Qed.
 Print Assumptions C09_normalize_space.
-(* FULL STATEMENT: normalize_space <class used by the code> s = normalize_space xml_space s.  The code splits on
-   str.split()'s Unicode whitespace (NBSP, U+2003, VT, FF, FS..US, NEL, ...): known finding. *)
-Theorem C09_normalize_space_xml_whitespace_refuted :
+(* the class the code splits on is the XML whitespace of the specification (S ::= (#x20 | #x9 | #xD | #xA)+) *)
+Theorem C09_normalize_space_xml_whitespace : forall s,
+  normalize_space code_ws s = normalize_space xml_space s /\ (forall c, code_ws c = true <-> c = 32 \/ c = 9 \/ c = 10 \/ c = 13).
+Proof.
+  intro s. split; [reflexivity|]. intro c. unfold code_ws. rewrite !orb_true_iff, !Z.eqb_eq. tauto.
+Qed.
+Print Assumptions C09_normalize_space_xml_whitespace.
+(* splitting with str.split() (every Unicode space character: NBSP, U+2003, VT, FF, FS..US, NEL, ...), as the code did
+   before the repair, is a different function *)
+Theorem C09_normalize_space_unicode_split_refuted :
   exists s, normalize_space py_isspace s <> normalize_space xml_space s.
 Proof. exists [97; 160; 98]. vm_compute. discriminate. Qed.
-Print Assumptions C09_normalize_space_xml_whitespace_refuted.
+Print Assumptions C09_normalize_space_unicode_split_refuted.
 
 (* compare(): total order on code-point sequences; codepoint-equal is equality *)
 Theorem C09_compare_order : forall a b c,
@@ -80,3 +88,9 @@ Example C09_nonvacuous :
   substring_before [116;97;116;116;111;111] [116;116] = [116;97] /\
   contains [1;2;3] [2;3] = true /\ wf_darg (DFin 5 2).
 Proof. vm_compute. repeat split; reflexivity. Qed.
+
+(* the statements of /repo that the hand model mirrors are present in the source as read on this run (T-data,
+   harness/shape.py -> Gen/C09Shape.v) *)
+Theorem C09_source_shape : Gen.C09Shape.shape_ok = true.
+Proof. reflexivity. Qed.
+Print Assumptions C09_source_shape.
